@@ -215,8 +215,9 @@ def replayEnv (cx : Codecs) (comp : Nat → Bytes → Bytes) (debug : Bool) : En
       | .io h "recv-fail" :: r => some (h, r)
       | _ => none
     match res, failNext with
-    | Except.error Err.codec, _ => (setStream w host st.incoming, Except.error Err.codec)
+    | Except.error Err.codec, none => (setStream w host st.incoming, Except.error Err.codec)
     | _, some (h, r) =>
+      -- (a recorded read failure fired before anything else could be made of the reply, an unreadable size included)
       -- a read failed (injected, or the stream ran dry): whatever was read so far is lost with the connection
       let w := { w with evs := r }
       if h = host then (w, .error .io) else (note w "recv-fail on other host", .error .io)
